@@ -30,7 +30,7 @@ RUN_MODULE = 'Run.C01'
 REPO_BINS = ['sccache']
 THEOREMS = ['C01_table_wf', 'C01_no_argument_lost', 'C01_command_complete', 'C01_parse_total', 'C01_every_argument_placed', 'C01_listed_words_multiset',
             'C01_dep_targets_kept', 'C01_every_result_affecting_arg_is_hashed', 'C01_class_side_conditions',
-            'C01_hash_key_side_conditions', 'C01_hashed_args_reach_hash_key', 'C01_preprocessed_suffixes_passthrough',
+            'C01_hash_key_side_conditions', 'C01_hashed_args_reach_hash_key', 'C01_preprocessed_suffixes_passthrough', 'C01_commands_run_in_client_env',
             'C01_dep_target_without_md_dropped', 'C01_x_rs_dropped', 'C01_resynthesis_fixpoint_refuted',
             'C01_resynthesis_fixpoint_partial', 'C01_hit_replays_stored', 'C01_hit_returns_stored_entry', 'C01_failure_verbatim_never_stored',
             'C01_noncacheable_passthrough']
@@ -77,7 +77,7 @@ CI = {n: i for i, n in enumerate(CTORS)}
 def load_spec():
     global SPEC
     if SPEC is None:
-        SPEC = c01_argtables.read_all(pipeline.REPO)
+        SPEC = c01_argtables.read_all(pipeline.REPO, strict=False)
     return SPEC
 
 
@@ -669,7 +669,7 @@ def legs(tier):
     def gs(rng, tier):
         return gen_search(rng, 30000 if tier == 'thorough' else 1500)
     def ge(rng, tier):
-        return gen_entry(rng, 400 if tier == 'thorough' else 40)
+        return gen_entry(rng, 400 if tier == 'thorough' else 24)
     return [
         Leg('entry', ge, monitor=monitor_entry, nontrivial=lambda c, o: sum(x[1] for x in c[1]) > 65536,
             stats=lambda c, o: ['kinds=' + ''.join(str(x[0]) for x in c[1]), 'size>128K=%d' % (sum(x[1] for x in c[1]) > 131072)],
@@ -797,7 +797,7 @@ def extra(rep, known):
         return
     sccache = pipeline.repo_bin('sccache')
     n_hist = 900 if rep.tier == 'thorough' else 32
-    n_ops = 16 if rep.tier == 'thorough' else 9
+    n_ops = 16 if rep.tier == 'thorough' else 6
     known_ids = {k['id'] for k in known}
     model_fn = _model_predict_fn()
     base_port = 20000 + (os.getpid() % 400) * 100
